@@ -451,7 +451,7 @@ func H14a_respz_q() { h14a(2, 2, 2, false, true) }
 func H14a_req_q()   { h14a(2, 2, 2, true, false) }
 // one longer message delivered in three pieces (a payload that is still incomplete after two reads)
 func H14a_resp3_q() { h14a(1, 3, 3, false, false) }
-func H14a_resp_t()  { h14a(3, 2, 3, false, false) }
+func H14a_resp_t()  { h14a(2, 2, 3, false, false) }
 func H14a_respz_t() { h14a(3, 2, 3, false, true) }
 func H14a_req_t()   { h14a(3, 2, 3, true, false) }
 
